@@ -750,9 +750,13 @@ func (self *Fork) cleanChunkTemp(partial *PartialVdrKillReport) *PartialVdrKillR
 	files := make([]string, 0, len(self.chunks))
 	var start time.Time
 	for _, chunk := range self.chunks {
-		if tempPaths, err := chunk.metadata.enumerateTemp(); err != nil {
+		tempPaths, err := chunk.metadata.enumerateTemp()
+		if err != nil && !os.IsNotExist(err) {
 			return partial
-		} else if filesPaths, err := chunk.metadata.enumerateFiles(); err != nil {
+		}
+		// A missing temp directory was already removed, possibly by a
+		// previous mrp which was interrupted part way through this loop.
+		if filesPaths, err := chunk.metadata.enumerateFiles(); err != nil {
 			return partial
 		} else {
 			if ts := chunk.metadata.getStartTime(); ts.After(start) {
